@@ -232,6 +232,10 @@ func parseInto(result *Version, input string) (err error) {
 		if epoch < 0 {
 			return fmt.Errorf("epoch in version is negative")
 		}
+		if int64(uint(epoch)) != epoch {
+			/* a 32-bit uint must not wrap around */
+			return fmt.Errorf("epoch in version is too big")
+		}
 		result.Epoch = uint(epoch)
 	}
 
